@@ -192,4 +192,13 @@ theorem C12_c_order_invariance (Ω : List World) {D D' : List Cond} (h : D.Perm 
     · exact Or.inl H
     · exact Or.inr fun imp hi => by rw [e] at hi ⊢; exact H imp ((hm _).mp hi)
 
+/-- non-vacuity of `C12_c_key_formula_invariance`: the penguin base under two keyings, with `f` rewritten as `¬¬f` -/
+def exC12a : List Cond := [⟨.atom 2, .atom 0, 1⟩, ⟨.neg (.atom 2), .atom 1, 2⟩, ⟨.atom 0, .atom 1, 3⟩]
+def exC12b : List Cond := [⟨.neg (.neg (.atom 2)), .atom 0, 7⟩, ⟨.neg (.atom 2), .atom 1, 0⟩, ⟨.atom 0, .atom 1, 30⟩]
+
+example : exC12a.Nodup ∧ exC12b.Nodup ∧ BaseEq exC12a exC12b := by
+  refine ⟨by decide, by decide, ?_⟩
+  refine Rel2.cons ?_ (Rel2.cons ?_ (Rel2.cons ?_ Rel2.nil)) <;> intro w <;>
+    simp [Cond.ver, Cond.fal, Fm.eval]
+
 end InfOCF
